@@ -28,11 +28,11 @@ def tables(rnd, quick):
 
 
 def scripts(rnd, quick):
-    for be, ty, ck, lo, hi, ins, outs, areas, regs in tables(rnd, quick):
+    for be, ty, ck, lo, hi, ins, outs, areas, regs in (list(tables(rnd, quick)) if quick else list(tables(rnd, quick)) + list(tables(rnd, quick)) + list(tables(rnd, quick))):
         sc = [tinit(be, areas, regs), 'get 0', 'get 1', 'get 2']
         m = (1 << BITS[ty]) - 1
         vals = list(boundary_values(ty)) + ins + outs + [(lo - 1) & m, (lo + 1) & m, (hi - 1) & m, (hi + 1) & m]
-        vals += [rnd.getrandbits(BITS[ty]) for _ in range(6)]
+        vals += [rnd.getrandbits(BITS[ty]) for _ in range(6 if quick else 120)]
         if ty in (F32, F64):
             vals += undecodable(ty)
         for bits in vals:
